@@ -134,6 +134,23 @@ def run_model(d):
         ]
     gap = d["gapN"] / d["gapD"]
     kw = {"limit": d["limit"]} if d["limit"] else {}
+    # observe the backend at its own interface (OR-tools objects, no aldy logic): did a Solve() return
+    # OPTIMAL/FEASIBLE with a point that OR-tools' own VerifySolution rejects?  Used only for attribution.
+    bogus = []
+    backend = getattr(m, "model", None)
+    if backend is not None and hasattr(backend, "VerifySolution"):
+        real_solve = backend.Solve
+
+        def watched(*a, **k):
+            st = real_solve(*a, **k)
+            if st in (0, 1) and not backend.VerifySolution(1e-5, False):
+                bogus.append(int(st))
+            return st
+
+        try:
+            backend.Solve = watched
+        except Exception:
+            pass
     for status, obj, sol in m.solutions(gap, **kw):
         if len(events) > min(300, 2 ** n + 1):  # a loop that never terminates (e.g. a no-op cut) is rejected at its 2nd yield
             break
@@ -156,7 +173,7 @@ def run_model(d):
             "active": active, "names_ok": bool(names_ok and not unknown and len(sol) == len(set(sol))),
             "vals_ok": vals_ok, "status": status,
         })
-    events.append({"tid": d["tid"], "k": "end"})
+    events.append({"tid": d["tid"], "k": "end", "backend_unverifiable": len(bogus)})
     return events
 
 
@@ -364,6 +381,11 @@ def run(ctx):
             with aldyenv.quiet_stderr():
                 raw = raw_cbc_first(d)
             fp["raw_cbc_returns_same_nonoptimal_objective"] = raw is not None and raw == ys[0]["obj"]
+        if r[1] == "CompleteModuloSuperset/PrematureEnd":
+            # the enumeration stopped although admissible assignments remain: did the backend hand back a
+            # point flagged OPTIMAL that violates the model's own constraints (lpinterface then raises
+            # NoSolutionsError, which ends the enumeration)?
+            fp["backend_returned_unverifiable_point_as_optimal"] = bool(evs and evs[-1].get("backend_unverifiable"))
         ctx.violation(
             r[1],
             fp,
